@@ -33,6 +33,11 @@ type force struct {
 	paramEveryKey bool
 	audioN        int
 	gop           int
+	// parameter changes of the video track: which set changes ("pps", "sps", "vps", "all"; "" = drawn per change),
+	// only within the first changesUntilPct percent of the media, the client attached at attachPct percent
+	paramKind       string
+	changesUntilPct int
+	attachPct       int
 }
 
 func fixedScenarios() []force {
@@ -63,6 +68,15 @@ func fixedScenarios() []force {
 		// forced rotations every 100 ms, one audio write (4 access units) every 512 ms: most segments hold no audio
 		{name: "ts-segments-without-audio", variant: 1, tracks: []tcfgA{aac(8000, 0, 0, false), vid(kH264, 1)}, target: "index",
 			paramEveryKey: true, audioN: 4, gop: 3},
+		// clients attached AFTER parameter changes of the video track (the init must have followed them)
+		{name: "late-h264-pps-only-fmp4", variant: 2, tracks: []tcfgA{vid(kH264, 1)}, target: "index", paramEveryKey: true, paramKind: "pps", changesUntilPct: 35, attachPct: 60, gop: 8},
+		{name: "late-h264-pps-only-ll", variant: 3, tracks: []tcfgA{vid(kH264, 1), aac(44100, 0, 0, false)}, target: "index", paramEveryKey: true, paramKind: "pps", changesUntilPct: 35, attachPct: 60, gop: 8},
+		{name: "late-h264-sps-pps-ll", variant: 3, tracks: []tcfgA{vid(kH264, 1)}, target: "media:0", paramEveryKey: true, paramKind: "all", changesUntilPct: 35, attachPct: 60, gop: 8},
+		{name: "late-h265-pps-only-fmp4", variant: 2, tracks: []tcfgA{vid(kH265, 0)}, target: "index", paramEveryKey: true, paramKind: "pps", changesUntilPct: 35, attachPct: 60, gop: 8},
+		{name: "late-h265-vps-only-ll", variant: 3, tracks: []tcfgA{vid(kH265, 0)}, target: "index", paramEveryKey: true, paramKind: "vps", changesUntilPct: 35, attachPct: 60, gop: 8},
+		{name: "late-h265-sps-only-fmp4", variant: 2, tracks: []tcfgA{opus(0, 0), vid(kH265, 4)}, target: "index", paramEveryKey: true, paramKind: "sps", changesUntilPct: 35, attachPct: 60, gop: 8},
+		{name: "late-av1-sequence-header-fmp4", variant: 2, tracks: []tcfgA{vid(kAV1, 0)}, target: "index", paramEveryKey: true, changesUntilPct: 35, attachPct: 60, gop: 8},
+		{name: "late-vp9-resolution-ll", variant: 3, tracks: []tcfgA{vid(kVP9, 0)}, target: "index", paramEveryKey: true, changesUntilPct: 35, attachPct: 60, gop: 8},
 		{name: "ts-h264-short-segments", variant: 1, tracks: []tcfgA{vid(kH264, 1)}, target: "media:0", segMin: 250e6},
 	}
 }
@@ -228,13 +242,17 @@ func genPair(seed uint64, id int, f *force) pairDesc {
 		p.AttachMs = p.MediaMs*3/10 + r.Intn(p.MediaMs*4/10)
 	}
 
+	if f != nil && f.attachPct != 0 {
+		p.AttachMs = p.MediaMs * f.attachPct / 100
+	}
+
 	type tstate struct {
 		dts      int64
 		frameDur int64
 		jitter   bool
 		gop      int
 		sinceKey int
-		params   int64
+		params   pset
 	}
 	st := make([]tstate, len(tracks))
 	var startSec int64
@@ -249,14 +267,27 @@ func genPair(seed uint64, id int, f *force) pairDesc {
 		startSec = r.Range(100000, 2000000)
 	}
 	p.NtpBase = int64(1700000000)*1e9 + int64(r.Intn(1000))*1e6 + int64(r.Intn(1000))*1e3
-	paramChanges := r.Bool(1, 8)
-	paramProb := 6
+	paramChanges := r.Bool(1, 5)
+	paramProb := 4
+	changesUntilNs := int64(1) << 62
+	if paramChanges && r.Bool(1, 2) {
+		// half of the pairs with parameter changes have them early and the client late
+		changesUntilNs = int64(p.MediaMs) * 1e6 * 4 / 10
+		p.AttachMs = p.MediaMs*5/10 + r.Intn(p.MediaMs*3/10)
+	}
+	paramKind := ""
 	if f != nil && f.paramEveryKey {
 		paramChanges, paramProb = true, 1
 	}
+	if f != nil && f.changesUntilPct != 0 {
+		changesUntilNs = int64(p.MediaMs) * 1e6 * int64(f.changesUntilPct) / 100
+	}
+	if f != nil {
+		paramKind = f.paramKind
+	}
 	for i, t := range tracks {
 		s := &st[i]
-		s.params = t.Params0
+		s.params = psetOfID(t.Params0)
 		switch t.Kind {
 		case kH264, kH265, kVP9, kAV1:
 			fps := []int64{25, 30, 50, 60}[r.Intn(4)]
@@ -317,15 +348,51 @@ func genPair(seed uint64, id int, f *force) pairDesc {
 			a.RA = key
 			a.NonIDR = !key
 			if a.RA {
-				if paramChanges && r.Bool(1, paramProb) {
-					s.params = 1 + (s.params % 11)
+				if paramChanges && tsNs(s.dts, t.Rate)-startNs < changesUntilNs && r.Bool(1, paramProb) {
+					kind := paramKind
+					if kind == "" {
+						kind = []string{"pps", "sps", "vps", "all"}[r.Intn(4)]
+					}
+					next := func(v int64) int64 { return 1 + (v % 11) }
+					switch t.Kind {
+					case kH264: // spsOf depends on the group of four ids, ppsOf on the id
+						switch kind {
+						case "pps", "vps":
+							s.params.P = next(s.params.P)
+						case "sps":
+							s.params.S = (s.params.S + 4) % 12
+						default:
+							s.params.S, s.params.P = (s.params.S+4)%12, next(s.params.P)
+						}
+					case kH265:
+						switch kind {
+						case "pps":
+							s.params.P = next(s.params.P)
+						case "vps":
+							s.params.V = next(s.params.V)
+						case "sps":
+							s.params.S = next(s.params.S)
+						default:
+							s.params = pset{next(s.params.S), next(s.params.P), next(s.params.V)}
+						}
+					default: // VP9: the key frame's header fields; AV1: the sequence header
+						s.params = psetOfID(next(s.params.S))
+					}
 				}
-				a.HasParams, a.Params = true, s.params
+				a.HasParams, a.Params = true, s.params.S
+				if isNALKind(t.Kind) {
+					if s.params.P != s.params.S {
+						a.PPSx = s.params.P + 1
+					}
+					if t.Kind == kH265 && s.params.V != s.params.S {
+						a.VPSx = s.params.V + 1
+					}
+				}
 			}
 			a.DTS = s.dts
 			a.PTS = s.dts
 			if t.Kind == kH265 {
-				ro, tick := h265ReorderOf(s.params)
+				ro, tick := h265ReorderOf(s.params.S)
 				typ := h265SliceType(nextID, a.RA)
 				a.RpsArg = r.Intn(h265MaxRpsArg(typ, ro) + 1)
 				a.PTS = a.DTS + int64(h265SamplesDiff(typ, ro, a.RpsArg))*tick
@@ -397,3 +464,5 @@ func genPair(seed uint64, id int, f *force) pairDesc {
 
 // tsNs converts a timestamp to nanoseconds without overflowing (truncating like Go's /)
 func tsNs(ts, rate int64) int64 { return (ts/rate)*1e9 + (ts%rate)*1e9/rate }
+
+func isNALKind(k int) bool { return k == kH264 || k == kH265 }
